@@ -63,11 +63,12 @@ Init == HWMInit /\ l = 1
 Next == /\ l <= Len(Trace)
         /\ CASE Ev.e = "Case"  -> \/ CaseOK(Ev)
                                   \/ (~CaseOK(Ev) /\ PrintT(<<"NONCONFORMING", l, Reason(Ev)>>) /\ FALSE)
+             [] Ev.e = "End"   -> Ev.count = l - 1 /\ l = Len(Trace)       \* no line was lost
              [] Ev.e = "Panic" -> PrintT(<<"NONCONFORMING", l, <<"violation", "decode", Ev.where, "no-panic", {}>> >>) /\ FALSE
              [] OTHER -> FALSE
         /\ l' = l + 1
 Spec == Init /\ [][Next]_l
 
 Progress == HWM(l)
-TraceAccepted == Accepted(Len(Trace))
+TraceAccepted == Accepted(Len(Trace)) /\ Trace[Len(Trace)].e = "End"
 ====
